@@ -102,7 +102,7 @@ impl std::str::FromStr for Copyright {
     type Err = String;
 
     fn from_str(s: &str) -> Result<Self, Self::Err> {
-        if !s.starts_with("Format:") {
+        if !crate::is_machine_readable(s) {
             return Err("Not machine readable".to_string());
         }
 
